@@ -50,7 +50,7 @@ def dispatch (line : String) : String :=
     | some "cur" => S09.runC09 fields obs
     | some "parse" => S09.runC09 fields obs
     | some "sel" => S18.runC18 fields obs
-    | some "conv" | some "reshape" | some "toset" | some "convopt" | some "optempty" | some "toset2" => runC12 fields obs
+    | some "conv" | some "reshape" | some "toset" | some "convopt" | some "optempty" | some "toset2" | some "convarg" | some "convres" => runC12 fields obs
     | some "crc" | some "dmg" | some "sweep" | some "rt" | some "instrs" | some "load" => runC07 fields obs
     | _ => ("bad-proto", "bad-proto", "-")
   m ++ "\t" ++ v ++ "\t" ++ r
